@@ -297,10 +297,6 @@ Ltac unfold_consts :=
   unfold SAMPLE_DECIMATE_FACTOR_MIN, SAMPLES_PER_DATA_MIN, ENTRIES_PER_SUMMARY_MIN,
          SUMMARY_DECIMATE_FACTOR_MIN in *.
 
-Ltac width_cases H :=
-  cbn [In sd_widths] in H;
-  destruct H as [H|[H|[H|[H|[H|[H|[H|H]]]]]]]; [subst; cbn..|contradiction].
-
 Lemma width_facts : forall w, In w sd_widths ->
   w <> 0 /\ sd_multiple w <> 0 /\ sd_multiple w <= 256 /\
   (forall s, s mod sd_multiple w = 0 ->
@@ -689,4 +685,143 @@ Proof.
      match type of Hx with _ = ?c => let v := eval vm_compute in c in change c with v in Hx end;
      cbn [In sd_widths]; clear - Hx; lia|]).
   contradiction.
+Qed.
+
+(* ------------------------------------------------------------------ *)
+(* concrete instances: hypotheses are satisfiable, defaults are fine,  *)
+(* and the witnesses that refute the unguarded statement               *)
+
+Definition sd_zero : sigdef := mkSigDef 0 0 0 0 0 0.
+
+Lemma in_range_b : forall d,
+  (spd d <? U32) && (sdf d <? U32) && (eps d <? U32) && (sumdf d <? U32) && (anno d <? U32) && (utc d <? U32) = true ->
+  in_range d.
+Proof.
+  intros d H. rewrite !andb_true_iff, !N.ltb_lt in H. unfold in_range. tauto.
+Qed.
+
+(* every all-defaults definition (all six fields zero) meets the guard; for 24-bit
+   samples it does not (no defaults: annotation/utc factors stay zero) *)
+Lemma defaults_meet_guard : forall w, In w sd_widths -> w <> 24 -> sd_guard w sd_zero.
+Proof.
+  intros w Hw H24. cbn [In sd_widths] in Hw.
+  destruct Hw as [H|[H|[H|[H|[H|[H|[H|H]]]]]]]; [subst w ..|contradiction];
+  try contradiction; apply guardb_iff; vm_compute; reflexivity.
+Qed.
+
+Lemma defaults_24_fail_guard : ~ sd_guard 24 sd_zero.
+Proof. intro H. apply guardb_iff in H. vm_compute in H. discriminate. Qed.
+
+Lemma defaults_normal_forms :
+  sd_align 1 sd_zero = SdOk (mkSigDef DEF1_samples_per_data DEF1_sample_decimate_factor DEF1_entries_per_summary DEF1_summary_decimate_factor DEF32_annotation_decimate_factor DEF32_utc_decimate_factor) /\
+  sd_align 4 sd_zero = SdOk (mkSigDef DEF4_samples_per_data DEF4_sample_decimate_factor DEF4_entries_per_summary DEF4_summary_decimate_factor DEF32_annotation_decimate_factor DEF32_utc_decimate_factor) /\
+  sd_align 8 sd_zero = SdOk (mkSigDef DEF8_samples_per_data DEF8_sample_decimate_factor DEF8_entries_per_summary DEF8_summary_decimate_factor DEF32_annotation_decimate_factor DEF32_utc_decimate_factor) /\
+  sd_align 16 sd_zero = SdOk (mkSigDef DEF16_samples_per_data DEF16_sample_decimate_factor DEF16_entries_per_summary DEF16_summary_decimate_factor DEF32_annotation_decimate_factor DEF32_utc_decimate_factor) /\
+  sd_align 32 sd_zero = SdOk (mkSigDef DEF32_samples_per_data DEF32_sample_decimate_factor DEF32_entries_per_summary DEF32_summary_decimate_factor DEF32_annotation_decimate_factor DEF32_utc_decimate_factor) /\
+  sd_align 64 sd_zero = SdOk (mkSigDef DEF64_samples_per_data DEF64_sample_decimate_factor DEF64_entries_per_summary DEF64_summary_decimate_factor DEF32_annotation_decimate_factor DEF32_utc_decimate_factor).
+Proof. vm_compute. repeat split; reflexivity. Qed.
+
+(* a non-trivial guarded definition: f32, (1000, 100, 33, 17, 3, 3) -> (208, 104, 34, 17, 3, 3) *)
+Lemma guard_example :
+  sd_guard 32 (mkSigDef 1000 100 33 17 3 3) /\
+  sd_align 32 (mkSigDef 1000 100 33 17 3 3) = SdOk (mkSigDef 208 104 34 17 3 3).
+Proof. split; [apply guardb_iff; vm_compute; reflexivity|vm_compute; reflexivity]. Qed.
+
+Lemma guard_example_24 :
+  sd_guard 24 (mkSigDef 100 11 100 10 5 5) /\
+  sd_align 24 (mkSigDef 100 11 100 10 5 5) = SdOk (mkSigDef 100 20 100 10 5 5).
+Proof. split; [apply guardb_iff; vm_compute; reflexivity|vm_compute; reflexivity]. Qed.
+
+Lemma idem_example :
+  let d := mkSigDef 8192 128 640 20 100 100 in
+  In 32 sd_widths /\ Consistent 32 d /\ sdf d mod sd_multiple 32 = 0 /\
+  spd d + sdf d - 1 < U32 /\ eps d + sumdf d - 1 < U32.
+Proof.
+  cbv zeta. split; [cbn; tauto|]. split; [apply consistentb_iff; vm_compute; reflexivity|].
+  vm_compute. repeat split; reflexivity.
+Qed.
+
+(* --- witnesses --- *)
+
+(* u64, sample_decimate_factor = 2^32-6: rounds to 2^32-4 without wrapping, then the
+   rounding of samples_per_data wraps to 0, entries_per_data = 0, SIGFPE in the loop test *)
+Lemma refuted_divzero_spd :
+  sd_validate 1 1 JLS_SIGNAL_TYPE_FSR JLS_DATATYPE_U64 = 0 /\
+  in_range (mkSigDef 0 4294967290 0 0 0 0) /\
+  sd_align (sample_size JLS_DATATYPE_U64) (mkSigDef 0 4294967290 0 0 0 0) = SdFault SdDivZero.
+Proof. split; [reflexivity|]. split; [apply in_range_b; reflexivity|vm_compute; reflexivity]. Qed.
+
+(* f32, sample_decimate_factor = 2^32-1: the rounding itself wraps to 0, SIGFPE in
+   round_up_to_multiple(samples_per_data, 0) *)
+Lemma refuted_divzero_sdf :
+  sd_validate 1 1 JLS_SIGNAL_TYPE_FSR JLS_DATATYPE_F32 = 0 /\
+  in_range (mkSigDef 0 4294967295 0 0 0 0) /\
+  sd_align (sample_size JLS_DATATYPE_F32) (mkSigDef 0 4294967295 0 0 0 0) = SdFault SdDivZero.
+Proof. split; [reflexivity|]. split; [apply in_range_b; reflexivity|vm_compute; reflexivity]. Qed.
+
+(* f32, entries_per_summary = 2^32-1: rounds (wraps) to 0 and is stored as 0 *)
+Lemma refuted_eps_zero :
+  sd_validate 1 1 JLS_SIGNAL_TYPE_FSR JLS_DATATYPE_F32 = 0 /\
+  in_range (mkSigDef 0 0 4294967295 0 0 0) /\
+  sd_align (sample_size JLS_DATATYPE_F32) (mkSigDef 0 0 4294967295 0 0 0) = SdOk (mkSigDef 8192 128 0 20 100 100) /\
+  ~ Consistent (sample_size JLS_DATATYPE_F32) (mkSigDef 8192 128 0 20 100 100).
+Proof.
+  split; [reflexivity|]. split; [apply in_range_b; reflexivity|]. split; [vm_compute; reflexivity|].
+  intro H. apply consistentb_iff in H. vm_compute in H. discriminate.
+Qed.
+
+(* i24, everything zero: no defaults at all; annotation/utc factors stay 0 and the
+   level-1 entry covers 240 bits *)
+Lemma refuted_24bit :
+  sd_validate 1 1 JLS_SIGNAL_TYPE_FSR JLS_DATATYPE_I24 = 0 /\
+  sd_align (sample_size JLS_DATATYPE_I24) sd_zero = SdOk (mkSigDef 10 10 10 10 0 0) /\
+  ~ Consistent (sample_size JLS_DATATYPE_I24) (mkSigDef 10 10 10 10 0 0) /\
+  ~ Entry256 (sample_size JLS_DATATYPE_I24) (mkSigDef 10 10 10 10 0 0).
+Proof.
+  split; [reflexivity|]. split; [vm_compute; reflexivity|]. split.
+  - intro H. apply consistentb_iff in H. vm_compute in H. discriminate.
+  - intro H. apply entry256b_iff in H. vm_compute in H. discriminate.
+Qed.
+
+(* u24 with non-zero annotation/utc factors: everything holds except "multiple of 256 bits" *)
+Lemma refuted_24bit_entry256 :
+  sd_guard 24 (mkSigDef 100 11 100 10 5 5) /\
+  sd_align 24 (mkSigDef 100 11 100 10 5 5) = SdOk (mkSigDef 100 20 100 10 5 5) /\
+  Consistent 24 (mkSigDef 100 20 100 10 5 5) /\ ~ Entry256 24 (mkSigDef 100 20 100 10 5 5).
+Proof.
+  split; [apply guardb_iff; vm_compute; reflexivity|]. split; [vm_compute; reflexivity|]. split.
+  - apply consistentb_iff. vm_compute. reflexivity.
+  - intro H. apply entry256b_iff in H. vm_compute in H. discriminate.
+Qed.
+
+(* stored parameters that satisfy every relation and fit in 32 bits, yet normalising
+   them again divides by zero: u64 (3*2^30, 3*2^30, 10, 10, 100, 100) *)
+Lemma refuted_idem_consistent_only :
+  let d := mkSigDef 3221225472 3221225472 10 10 100 100 in
+  Consistent 64 d /\ in_range d /\ sdf d mod sd_multiple 64 = 0 /\ sd_align 64 d = SdFault SdDivZero.
+Proof.
+  cbv zeta. split; [apply consistentb_iff; vm_compute; reflexivity|].
+  split; [apply in_range_b; reflexivity|]. split; vm_compute; reflexivity.
+Qed.
+
+(* a definition inside the guard whose normal form is outside it: the second file faults *)
+Lemma refuted_twice_divzero :
+  let d := mkSigDef 10 3221225472 10 10 0 0 in
+  let d' := mkSigDef 3221225472 3221225472 10 10 100 100 in
+  sd_guard 64 d /\ sd_align 64 d = SdOk d' /\ Consistent 64 d' /\ sd_align 64 d' = SdFault SdDivZero.
+Proof.
+  cbv zeta. split; [apply guardb_iff; vm_compute; reflexivity|]. split; [vm_compute; reflexivity|].
+  split; [apply consistentb_iff; vm_compute; reflexivity|vm_compute; reflexivity].
+Qed.
+
+(* the same through entries_per_summary: f32, summary_decimate_factor = 2^31+1; the second
+   pass stores entries_per_summary = 0 *)
+Lemma refuted_twice_changes :
+  let d := mkSigDef 0 0 10 2147483649 0 0 in
+  let d' := mkSigDef 384 128 2147483649 2147483649 100 100 in
+  sd_guard 32 d /\ sd_align 32 d = SdOk d' /\ Consistent 32 d' /\
+  sd_align 32 d' = SdOk (mkSigDef 384 128 0 2147483649 100 100).
+Proof.
+  cbv zeta. split; [apply guardb_iff; vm_compute; reflexivity|]. split; [vm_compute; reflexivity|].
+  split; [apply consistentb_iff; vm_compute; reflexivity|vm_compute; reflexivity].
 Qed.
